@@ -6,13 +6,13 @@ import re
 import struct
 
 # index -> raw name.  AKAI names are limited to the AKAI character set (12 characters), Roland names are 16 ASCII bytes.
-AKAI_NAMES = ["PNO", "PNO L", "PNO R", "PNO -L", "PNO -R", "PNO  L", "PNO--R", "L", "R", " L", "-R", "...", ".", "", "-X", "#1", "+A", "PNO.", "PNO L.", "A.B", "PNO LL", "PNO L R"]
-ROLAND_NAMES = ["Pno", "Pno L", "Pno R", "Pno -L", "Pno -R", "Pno  L", "pno l", "L", " R", "../x", "a/b", "a\\b", "a b", "..", ".", "", "-x", "#1", "Pno (2)", "Pno.", "Pno L.",
-                "x" * 16, "con", "a:b", "'q'", "a\x01b", "Pno L (2)", "Pno R R"]
+AKAI_NAMES = ["PNO", "PNO L", "PNO R", "PNO -L", "PNO -R", "PNO  L", "PNO--R", "L", "R", " L", "-R", "...", ".", "", "-X", "#1", "+A", "PNO.", "PNO L.", "A.B", "PNO LL", "PNO L R", "A.C"]
+ROLAND_NAMES = ["Pno", "Pno L", "Pno R", "Pno -L", "Pno -R", "Pno  L", "pno l", "L", " R", "../x", "a/b", "a\\b", "a b", "..", ".", "", "-x", "Pno.2", "Pno (2)", "Pno.", "Pno L.",
+                "x" * 16, "Pno.1", "a:b", "'q'", "a\x01b", "Pno L (2)", "Pno R R"]
 
 
-CDDA_TITLES = ["Song", "Song L", "Song R", "Song -L", "Song -R", "song l", "L", " R", "../x", "a/b", "a\\b", "a b", "..", ".", "", "-x", "#1", "Song (2)", "Song.", "Song L.",
-               "x" * 40, "con", "a:b", "'q'", "a\x01b", "Song  L", "Song   R", None]          # None: no TITLE line at all
+CDDA_TITLES = ["Song", "Song L", "Song R", "Song -L", "Song -R", "song l", "L", " R", "../x", "a/b", "a\\b", "a b", "..", ".", "", "-x", "Song No. 2", "Song (2)", "Song.", "Song L.",
+               "x" * 40, "Song No. 1", "a:b", "'q'", "a\x01b", "Song  L", "Song   R", None]          # None: no TITLE line at all
 
 
 def words(n, seed):
